@@ -126,8 +126,25 @@ impl<'a> Shrinker<'a> {
                 .collect();
             self.try_accept(cur, c);
         }
+        if cur.lazy {
+            let mut c = cur.clone();
+            c.lazy = false;
+            self.try_accept(cur, c);
+        }
+        // drop / cd steps one at a time
+        let mut i = 0;
+        while i < cur.schedule.len() {
+            if matches!(cur.schedule[i], Step::D(_) | Step::Cd(_)) {
+                let mut c = cur.clone();
+                c.schedule.remove(i);
+                if self.try_accept(cur, c) {
+                    continue;
+                }
+            }
+            i += 1;
+        }
         // schedule prefix: shorten walker steps before mutations
-        if !cur.mutations.is_empty() {
+        if !cur.mutations.is_empty() || cur.schedule.iter().any(|s| matches!(s, Step::D(_) | Step::Cd(_))) {
             let mut i = 0;
             while i < cur.schedule.len() {
                 if matches!(cur.schedule[i], Step::W(_)) {
